@@ -318,6 +318,9 @@ fn judge(run: &Run, env: &Env, c: &Case) -> CaseResult {
         Err(f) if f.signature.starts_with("C22:") => return Err(f),
         Err(f) => {
             // the direct signature failing is C03's subject; here it only means there is nothing to compare
+            if std::env::var("VERIF_DUMP").is_ok() {
+                eprintln!("direct sign/read failed: {} {}", f.signature, f.what);
+            }
             run.count(&format!("skipped_direct_{}", f.signature));
             return Ok(());
         }
@@ -325,6 +328,10 @@ fn judge(run: &Run, env: &Env, c: &Case) -> CaseResult {
     if !sdk::is_valid_or_trusted(&ra) {
         run.count("skipped_direct_read_invalid");
         return Ok(());
+    }
+    // non-trivial: an ingredient with a manifest, or at least one resource (supplied, or generated thumbnails)
+    if gd.has_signed_ingredient() || !gd.resources.is_empty() || ra.active_manifest().map(|m| !resource_refs(m).is_empty()).unwrap_or(false) {
+        run.nontrivial(c);
     }
 
     // ---- identical builder through the archive hops --------------------------------------------------
@@ -490,29 +497,41 @@ fn judge(run: &Run, env: &Env, c: &Case) -> CaseResult {
     }
     // created/gathered attribution, from the typed accessors
     {
-        let list = |r: &Reader| -> Vec<(String, String, bool)> {
+        let list = |r: &Reader| -> Vec<(String, Value, bool)> {
             r.active_manifest()
-                .map(|m| m.assertions().iter().map(|a| (a.label().to_string(), a.value().map(|v| v.to_string()).unwrap_or_default(), a.created())).collect())
+                .map(|m| {
+                    m.assertions()
+                        .iter()
+                        // actions carry run-specific hashed URIs: label and attribution only
+                        .map(|a| (a.label().to_string(), if a.label().starts_with("c2pa.actions") { Value::Null } else { a.value().cloned().unwrap_or(Value::Null) }, a.created()))
+                        .collect()
+                })
                 .unwrap_or_default()
         };
         let (la, lb) = (list(&ra), list(&rb));
-        let strip = |l: &Vec<(String, String, bool)>| {
-            let mut v: Vec<(String, String)> = l.iter().map(|x| (x.0.clone(), x.1.clone())).collect();
-            v.sort();
-            v
+        // multiset equality under JSON equivalence, with or without the created flag
+        let multiset_eq = |with_created: bool| -> bool {
+            if la.len() != lb.len() {
+                return false;
+            }
+            let mut used = vec![false; lb.len()];
+            la.iter().all(|x| {
+                match (0..lb.len()).find(|j| !used[*j] && lb[*j].0 == x.0 && (!with_created || lb[*j].2 == x.2) && defgen::json_equiv(&lb[*j].1, &x.1)) {
+                    Some(j) => {
+                        used[j] = true;
+                        true
+                    }
+                    None => false,
+                }
+            })
         };
-        let sorted = |l: &Vec<(String, String, bool)>| {
-            let mut v = l.clone();
-            v.sort();
-            v
-        };
+        let same_sequence = la.len() == lb.len() && la.iter().zip(&lb).all(|(x, y)| x.0 == y.0 && x.2 == y.2 && defgen::json_equiv(&x.1, &y.1));
         let mixed_created_on_one_label = gd.expect.assertions.iter().any(|a| a.created && gd.expect.assertions.iter().any(|b| !b.created && b.label == a.label));
-        if strip(&la) == strip(&lb) && (sorted(&la) != sorted(&lb) || (la != lb && mixed_created_on_one_label)) {
-            let changed: Vec<String> = sorted(&lb).iter().filter(|x| !la.contains(x)).map(|x| format!("{} created={}", x.0, x.2)).collect();
+        if multiset_eq(false) && (!multiset_eq(true) || (!same_sequence && mixed_created_on_one_label)) {
             return Err(Fail::new(
                 "C22:gathered-assertion-becomes-created",
                 format!(
-                    "same assertions (label, data) but the created/gathered attribution (and with it the order) changed after the archive round trip: {changed:?}; original order {:?}, restored order {:?}; supplied created flags {:?}",
+                    "same assertions (label, data) but the created/gathered attribution (and with it the order) changed after the archive round trip: original {:?}, restored {:?}; supplied created flags {:?}",
                     la.iter().map(|x| (x.0.as_str(), x.2)).collect::<Vec<_>>(),
                     lb.iter().map(|x| (x.0.as_str(), x.2)).collect::<Vec<_>>(),
                     gd.expect.assertions.iter().map(|a| (a.label.as_str(), a.created)).collect::<Vec<_>>()
@@ -543,13 +562,22 @@ fn judge(run: &Run, env: &Env, c: &Case) -> CaseResult {
             diff = defgen::first_diff(&ja, &jb, "");
         }
     }
-    if let Some(d) = diff {
-        if d.ends_with("/data/alg: \"sha384\" vs \"sha256\"") || d.ends_with("/data/alg: \"sha512\" vs \"sha256\"") {
-            return Err(Fail::new(
-                "C22:hash-alg-lost-after-restore",
-                format!("definition.hash_alg {:?} is not restored from the archive: the restored builder hashes with sha256 ({d})", gd.expect.hash_alg),
-            ));
+    if let Some(d) = &diff {
+        if d.ends_with("/alg: \"sha384\" vs \"sha256\"") || d.ends_with("/alg: \"sha512\" vs \"sha256\"") {
+            // recognised (hash_alg is not restored): remember, blank the alg members, keep comparing
+            if minor.is_none() {
+                minor = Some(Fail::new(
+                    "C22:hash-alg-lost-after-restore",
+                    format!("definition.hash_alg {:?} is not restored from the archive: the restored builder hashes with sha256 ({d})", gd.expect.hash_alg),
+                ));
+            }
+            for j in [&mut ja, &mut jb] {
+                sdk::blank_keys(j, &["alg"]);
+            }
+            diff = defgen::first_diff(&ja, &jb, "");
         }
+    }
+    if let Some(d) = diff {
         let part = ["title", "assertions", "ingredients", "redactions", "claim_generator_info", "thumbnail", "label", "format", "instance_id"]
             .iter()
             .find(|p| d.contains(&format!("/{p}")))
@@ -591,8 +619,8 @@ fn judge(run: &Run, env: &Env, c: &Case) -> CaseResult {
         d["manifests"][r.active_label().unwrap_or("")]["claim"]["alg"].as_str().unwrap_or("").to_string()
     };
     let (alg_a, alg_b) = (claim_alg(&ra), claim_alg(&rb));
-    if alg_a != alg_b {
-        return Err(Fail::new(
+    if alg_a != alg_b && minor.is_none() {
+        minor = Some(Fail::new(
             "C22:hash-alg-lost-after-restore",
             format!("definition.hash_alg {:?}: claim alg of the directly signed manifest is {alg_a:?}, after the archive round trip {alg_b:?}", gd.expect.hash_alg),
         ));
@@ -685,10 +713,6 @@ fn judge(run: &Run, env: &Env, c: &Case) -> CaseResult {
         }
     }
 
-    let nontrivial = gd.has_signed_ingredient() || !gd.resources.is_empty() || n_res > 0;
-    if nontrivial {
-        run.nontrivial(c);
-    }
     if gd.has_signed_ingredient() {
         run.count("with_signed_ingredient");
     }
@@ -743,6 +767,17 @@ fn main() {
             }
             if boost == 5 {
                 spec.thumb = 1;
+            }
+            // keep the triggers of already recognised defects rare so that they do not mask the rest:
+            // generator icon (restored builder cannot sign), redactions (ditto), icon + sha384/512 (C03 finding)
+            if spec.resources == 2 && spec.seed % 4 != 0 {
+                spec.resources = 1;
+            }
+            if spec.redact && spec.seed % 3 != 0 {
+                spec.redact = false;
+            }
+            if spec.resources == 2 && spec.hash_alg >= 2 {
+                spec.hash_alg = 1;
             }
             // the mp4 fixture is 800 KB: keep it rare
             let asset = if asset == 4 && boost != 0 { 0 } else { asset };
